@@ -41,7 +41,7 @@ def select(ctx, ops, pred, thorough):
     return scns
 
 
-def run(ctx):
+def _run_main(ctx):
     thorough = ctx.tier == "thorough"
     ctx.rule = ("(operation, stall point k, timeout setting, segmentation): every threshold of the exchange structure +-1 and every 3rd/5th byte (quick) or every byte (thorough) "
                 "for 18 standard operations; non-trivial = k below the byte at which the exchange completes; distinct by tuple")
@@ -89,3 +89,19 @@ def run(ctx):
     ctx.traces_validated = len(scns)
     ctx.sample({"scenario": scns[len(scns) // 2]})
     ctx.sample({"operation": ops[1]})
+
+
+OPOPT_FIELDS = {"channel.Timeout", "netconf.Timeout"}   # the operation options this property relies on (OpOptions.tla; every other option is noise in any position)
+
+
+def run(ctx):
+    import json as _json
+    import opopts
+    if ctx.replay:
+        rp = _json.load(open(ctx.replay))["scenario"]
+        if rp.get("kind") == "opopts":
+            opopts.replay(ctx, "C05", OPOPT_FIELDS, rp)
+            return
+    _run_main(ctx)
+    if not ctx.replay:
+        opopts.stage(ctx, "C05", OPOPT_FIELDS, ctx.tier == "thorough")
